@@ -29,8 +29,8 @@ fn seg(u: &mut Universe, chain: usize, fork: Option<u32>, blocks: Vec<BlockSpec>
     }
 }
 
-/// 4 segments (5 blocks), fork after S1, NU6.3 at FIRST+2: the quick-tier universe, small enough
-/// for the whole reachable state space to be enumerated.
+/// 5 segments (4 segments of 5 blocks + a 102-block empty stretch), fork after S1, NU6.3 at FIRST+2:
+/// the quick-tier universe.
 pub fn tiny() -> Universe {
     let mut u = Universe::new(Some(FIRST + 2), FIRST, (SHARD - 2, SHARD - 2), 10);
     seg(&mut u, 0, None, vec![block(vec![tx(vec![out("a1", A, Sapling, External, 60_000), foreign(Sapling, 11_111)])])], 100);
@@ -51,7 +51,19 @@ pub fn tiny() -> Universe {
         ])],
         102,
     );
-    seg(&mut u, 0, None, vec![block(vec![tx(vec![spend("a2"), out("a5", A, Orchard, Internal, 60_000)])]), BlockSpec::default()], 103);
+    // S3: spends of an Orchard note received two segments earlier and of an Ironwood note received in
+    // the previous block (a scan of S2..S3 receives and spends it inside one batch)
+    seg(
+        &mut u,
+        0,
+        None,
+        vec![block(vec![tx(vec![spend("a2"), out("a5", A, Orchard, Internal, 60_000)]), tx(vec![spend("a4"), out("a6", A, Ironwood, Internal, 45_000)])]), BlockSpec::default()],
+        103,
+    );
+    // S4: 102 empty blocks: scanning them before an earlier segment moves the maximum scanned height
+    // more than PRUNING_DEPTH / NULLIFIER_MAP_RETENTION_BLOCKS (100) above the spends in S2 and S3
+    // while the fully-scanned height stays behind.
+    seg(&mut u, 0, None, empties(102), 104);
     u.extend(
         1,
         Some(FIRST + 1),
